@@ -258,6 +258,33 @@ def roundtrip(mon, rec, rng, d, U):
     return info, path
 
 
+def sequential_npy(mon, rec, rng, d, U):
+    """np.save may be called repeatedly on one handle; read_signal(stream, force_as='npy') must then return the arrays
+    one after the other, starting wherever the stream stands"""
+    arrs = [gen_array(rng, "npy") for _ in range(int(rng.integers(2, 5)))]
+    p = os.path.join(d, "many.bin")
+    with open(p, "wb") as f:
+        f.write(b"#prefix\n" if rng.random() < 0.5 else b"")
+        off = f.tell()
+        for a in arrs:
+            np.save(f, a)
+    f = open(p, "rb") if rng.random() < 0.5 else io.BytesIO(open(p, "rb").read())
+    f.seek(off)
+    try:
+        for j, a in enumerate(arrs):
+            mon.expect.clear()
+            mon.register(f, expected=np.ascontiguousarray(a), info=dict(kind="npy", shape=list(a.shape), stored_dtype=str(a.dtype), channels=1, entries=len(arrs), cast=None,
+                                                                        access="stream", key=None, name="array %d of %d on one stream (offset %d)" % (j, len(arrs), f.tell())))
+            try:
+                U.read_signal(f, force_as="npy")
+            except Exception:
+                break
+            rec.count("sequential_stream_reads")
+    finally:
+        f.close()
+        mon.expect.clear()
+
+
 def error_contract(mon, rec, rng, d, U):
     x = np.arange(10, dtype=np.int16)
     p = os.path.join(d, "noext")
@@ -437,6 +464,8 @@ def run_case(case, rec, mon=None):
         if case["kind"] == "roundtrips":
             last = None
             for _ in range(case["n"]):
+                if rng.random() < 0.08:
+                    sequential_npy(mon, rec, rng, d, U)
                 last, path = roundtrip(mon, rec, rng, d, U)
                 mon.expect.clear()
                 for root, dirs, files in os.walk(d):
@@ -481,7 +510,7 @@ def run_shard(spec, rec):
 
 def finish(rec):
     monitor.require(rec, ["pydrobert.speech.util.read_signal", "pydrobert.speech.util.wds_read_signal"])
-    need = ["roundtrips_" + k for k in KINDS] + ["access_name", "access_forced", "access_stream", "error_contract_cases", "hostile_decodes", "wds_valid_files",
+    need = ["roundtrips_" + k for k in KINDS] + ["access_name", "access_forced", "access_stream", "sequential_stream_reads", "error_contract_cases", "hostile_decodes", "wds_valid_files",
                                                    "hostile_wrong_object", "hostile_truncated", "hostile_bitflip", "hostile_splice", "hostile_random", "hostile_wrong_suffix"]
     for k in need:
         if not rec.counters[k]:
